@@ -86,7 +86,7 @@ SHARED = [
 
 QUICK_LEAVES = {'bool', 'int-0-7', 'int-m5-300', 'int-ext', 'enum-neg', 'enum-ext', 'bits-5', 'bits-named', 'octets-1-3',
                 'ia5-1-3', 'utf8', 'seq-ext', 'choice'}
-QUICK_CONTAINERS = {'default', 'addition', 'group', 'after-ext', 'choice-ext', 'seqof', 'ref'}
+QUICK_CONTAINERS = {'default', 'addition', 'group', 'after-ext', 'choice-ext', 'seqof', 'setof', 'ref'}
 
 
 def _mod(body, tags):
@@ -105,7 +105,7 @@ def build():
                 continue
             body = ctext % dict(t=ltext, d=dflt)
             feats = {'gen', 'g-' + cid, 'k-' + kind}
-            if lid in QUICK_LEAVES and cid in QUICK_CONTAINERS and not (lid == 'bits-named' and cid in ('ref', 'seqof')):
+            if lid in QUICK_LEAVES and cid in QUICK_CONTAINERS and not (lid == 'bits-named' and cid in ('ref', 'seqof', 'setof')):
                 feats.add('genq')      # (two named-bit strings: ~23 000 paths per codec, thorough tier only)
             if kind == 'real':
                 feats.add('real')
